@@ -31,8 +31,8 @@ STUB = ["random.Random (SimRandom, draw-for-draw faithful unless scripted)", "ti
 ASSUMPTIONS = ["objective functions are deterministic, finite (no NaN/inf)", "getrandbits is never scripted to a large value",
                "only `True` returned by on_progress stops a run"]
 TIERS = {
-    "quick": {"runs": 4800, "block": 150, "budget_s": 75},
-    "thorough": {"runs": 200000, "block": 500, "budget_s": 900},
+    "quick": {"runs": 40000, "block": 500, "budget_s": 75},
+    "thorough": {"runs": 2000000, "block": 2000, "budget_s": 900},
 }
 
 RNG_MODULES = ["solvor.anneal", "solvor.tabu", "solvor.lns", "solvor.genetic", "solvor.differential_evolution",
